@@ -58,6 +58,9 @@ type c15Scenario struct {
 	Children []J        `json:"children"` // what the sync hook returns
 	Builds   []c15Build `json:"builds"`
 	Wake     bool       `json:"wake"`
+	// update probes after the last sync: a related-object UPDATE whose old and new state are on different sides of the
+	// parent's selection: leave | enter | neither | both
+	UpdateProbes []string `json:"updateProbes"`
 	// cold-cache wake probes: the handler must wake a parent whose customize answer is not cached
 	ColdFlush bool     `json:"coldFlush"` // (b) after the last sync empty the manager's response cache, then change related objects
 	Parent2   J        `json:"parent2"`   // (a) a second parent of the same controller that is never synced on this manager
@@ -199,7 +202,18 @@ type c15ColdRec struct {
 	Woken  bool
 }
 
+// one update probe: the object as the informer held it, the object as the MODIFIED event carried it
+type c15UpdRec struct {
+	Kind   string
+	Parent J
+	Answer interface{}
+	Old    J
+	New    J
+	Woken  bool
+}
+
 type c15Rec struct {
+	Updates   []c15UpdRec
 	Sc        *c15Scenario
 	Builds    [][]c15StepRec
 	Wakes     []c15WakeRec
@@ -389,6 +403,14 @@ func c15Run(sc *c15Scenario) (*c15Rec, error) {
 				out.ColdCalls = st.parentCalls(p2name)
 			}
 		}
+		if len(sc.UpdateProbes) > 0 && sc.Hook.Raw == "" && last && lastDone && lastRelated != nil && sc.Parent2 == nil {
+			if lp, err := common.GetObject(b.pc.parentInformer, pns, pname); err == nil {
+				parent := runtime.DeepCopyJSON(lp.Object)
+				gen, _ := parent["metadata"].(map[string]interface{})["generation"].(int64)
+				answer := c15Normalize(J{"relatedResources": sc.c15RulesFor(gen)})
+				out.Updates = c15UpdateProbes(w, b, key, parent, answer, sc.UpdateProbes, lastRelated, view)
+			}
+		}
 		if hasNull {
 			// let the related informers deliver their initial add events to the real handlers
 			time.Sleep(20 * time.Millisecond)
@@ -519,6 +541,17 @@ func c15Touch(w *cworld, b *builtPC, key string, o J, rv string, timeout time.Du
 	}
 	ann["touched"] = rv
 	md["annotations"] = ann
+	return c15Emit(w, b, key, cur, timeout)
+}
+
+// c15Emit sends cur as a MODIFIED event and waits until the real handlers enqueue key
+func c15Emit(w *cworld, b *builtPC, key string, cur J, timeout time.Duration) bool {
+	av, _ := cur["apiVersion"].(string)
+	kind, _ := cur["kind"].(string)
+	deadline := time.Now().Add(3 * time.Second)
+	for w.srv.WatchCount(av, kind) == 0 && time.Now().Before(deadline) {
+		time.Sleep(200 * time.Microsecond)
+	}
 	b.queue.Reset()
 	w.srv.Emit("MODIFIED", cur)
 	deadline = time.Now().Add(timeout)
@@ -531,6 +564,95 @@ func c15Touch(w *cworld, b *builtPC, key string, o J, rv string, timeout time.Du
 		time.Sleep(200 * time.Microsecond)
 	}
 	return false
+}
+
+func c15Relabel(o J, labels J, rv string) J {
+	cur := runtime.DeepCopyJSON(o)
+	md := cur["metadata"].(map[string]interface{})
+	md["resourceVersion"] = rv
+	if labels == nil {
+		delete(md, "labels")
+	} else {
+		md["labels"] = runtime.DeepCopyJSON(labels)
+	}
+	return cur
+}
+
+// c15UpdateProbes: UPDATE events that move an object across the border of the parent's selection.
+// The harness only proposes the moves; which side each state is on is judged by the check.
+func c15UpdateProbes(w *cworld, b *builtPC, key string, parent J, answer interface{}, kinds []string,
+	related map[string]interface{}, view map[string][]map[string]interface{}) []c15UpdRec {
+	pns, _ := parent["metadata"].(map[string]interface{})["namespace"].(string)
+	inMap := c15PickRelated(related, 1000)
+	isRelated := map[string]bool{}
+	for _, o := range inMap {
+		isRelated[objKey(o)] = true
+	}
+	// objects the informers hold that are not in the map (related informers exist only for resources some rule named)
+	var outside []J
+	vkeys := make([]string, 0, len(view))
+	for k := range view {
+		vkeys = append(vkeys, k)
+	}
+	sort.Strings(vkeys)
+	for _, k := range vkeys {
+		for _, o := range view[k] {
+			av, _ := o["apiVersion"].(string)
+			kd, _ := o["kind"].(string)
+			ons, _ := o["metadata"].(map[string]interface{})["namespace"].(string)
+			if isRelated[objKey(o)] || w.srv.WatchCount(av, kd) == 0 || (pns != "" && ons != pns) {
+				continue
+			}
+			outside = append(outside, o)
+		}
+	}
+	labelsOf := func(o J) J {
+		l, _ := o["metadata"].(map[string]interface{})["labels"].(map[string]interface{})
+		return l
+	}
+	var out []c15UpdRec
+	probe := func(kind string, old, cur J) {
+		woken := c15Emit(w, b, key, cur, 250*time.Millisecond)
+		out = append(out, c15UpdRec{Kind: kind, Parent: parent, Answer: answer, Old: old, New: cur, Woken: woken})
+	}
+	ri, oi := 0, 0
+	for _, kind := range kinds {
+		switch kind {
+		case "leave": // in the map before; relabelled so that a label rule lets go of it
+			if ri < len(inMap) {
+				probe(kind, inMap[ri], c15Relabel(inMap[ri], J{"left": "yes"}, "999990"))
+				ri++
+			}
+		case "both": // in the map before and, with one more label, after
+			if ri < len(inMap) {
+				l := J{"extra": "1"}
+				for k, v := range labelsOf(inMap[ri]) {
+					l[k] = v
+				}
+				probe(kind, inMap[ri], c15Relabel(inMap[ri], l, "999991"))
+				ri++
+			}
+		case "enter": // not in the map before; gets the labels of an object of its kind that is
+			if oi < len(outside) {
+				o := outside[oi]
+				l := J{"tier": "x", "env": "p"}
+				for _, r := range inMap {
+					if r["kind"] == o["kind"] && labelsOf(r) != nil {
+						l = labelsOf(r)
+						break
+					}
+				}
+				probe(kind, o, c15Relabel(o, l, "999992"))
+				oi++
+			}
+		case "neither":
+			if oi < len(outside) {
+				probe(kind, outside[oi], c15Relabel(outside[oi], J{"other": "q"}, "999993"))
+				oi++
+			}
+		}
+	}
+	return out
 }
 
 func c15WakeProbe(w *cworld, b *builtPC, key string, related map[string]interface{}) []c15WakeRec {
@@ -598,8 +720,13 @@ func c15CoqCase(c *c15Rec) string {
 		cold = append(cold, fmt.Sprintf("(mkCold %s %s %s %s)", vh.MustCoqJSON(map[string]interface{}(cr.Parent)), vh.MustCoqJSON(cr.Answer),
 			vh.MustCoqJSON(map[string]interface{}(cr.Obj)), vh.CoqBool(cr.Woken)))
 	}
-	return fmt.Sprintf("mkC15 %s [%s] [%s] [%s] %s %s", coqCfg(&c.Sc.Ctl), strings.Join(builds, ";\n "), strings.Join(wakes, "; "),
-		strings.Join(cold, ";\n "), vh.CoqZ(int64(c.ColdCalls)), vh.CoqStringList(c.Sc.Features))
+	upds := []string{}
+	for _, u := range c.Updates {
+		upds = append(upds, fmt.Sprintf("(mkUpd %s %s %s %s %s %s)", vh.MustCoqString(u.Kind), vh.MustCoqJSON(map[string]interface{}(u.Parent)), vh.MustCoqJSON(u.Answer),
+			vh.MustCoqJSON(map[string]interface{}(u.Old)), vh.MustCoqJSON(map[string]interface{}(u.New)), vh.CoqBool(u.Woken)))
+	}
+	return fmt.Sprintf("mkC15 %s [%s] [%s] [%s] %s [%s] %s", coqCfg(&c.Sc.Ctl), strings.Join(builds, ";\n "), strings.Join(wakes, "; "),
+		strings.Join(cold, ";\n "), vh.CoqZ(int64(c.ColdCalls)), strings.Join(upds, ";\n "), vh.CoqStringList(c.Sc.Features))
 }
 
 // c15Outcome: one word per step, for the replay file and the signature
@@ -906,20 +1033,69 @@ func (g *c15Gen) famRules(i int, seed uint64, hostile bool) *c15Scenario {
 			`"x"`, "7", `{"relatedResources":[null]}`, `{"relatedResources":[[]]}`, `{"relatedresources":[{"apiVersion":"v1","resource":"pods"}]}`})
 		sc.Features = append(sc.Features, "raw-body")
 	}
-	if g.r.Chance(1, 6) {
+	if g.r.Chance(1, 5) {
 		// a parent on its way out: the finalize hook gets the related objects too
-		sc.Ctl.Finalize = true
-		md := sc.Parent["metadata"].(J)
-		md["finalizers"] = A{"metacontroller.io/compositecontroller-" + sc.Ctl.Name}
-		md["deletionTimestamp"] = "2020-01-02T00:00:00Z"
-		sc.Features = append(sc.Features, "finalize")
+		if !hostile {
+			// rules that are accepted, so that the finalize request is really sent
+			rs, feats := g.goodRules(sc.Ctl.ParentNamespaced)
+			sc.Hook.Rules = rs
+			sc.Features = append(sc.Features[:1], feats...)
+		}
+		g.finalizing(sc, g.r.Chance(1, 3))
 		sc.Builds = []c15Build{{Steps: c15Syncs(1)}}
 	} else {
 		sc.Builds = []c15Build{{Steps: c15Syncs(2 + g.r.Intn(2))}}
 		sc.Wake = true
 		sc.ColdFlush = sc.Hook.Raw == ""
+		sc.UpdateProbes = g.updateProbes()
 	}
 	return sc
+}
+
+// which update probes a generated scenario runs (each "no wake-up" answer costs its time-out)
+func (g *c15Gen) updateProbes() []string {
+	out := []string{"leave"}
+	if g.r.Bool() {
+		out = append(out, "both")
+	}
+	if g.r.Bool() {
+		out = append(out, "enter")
+	}
+	if g.r.Chance(1, 4) {
+		out = append(out, "neither")
+	}
+	return out
+}
+
+// rules that GetRelatedObjects accepts
+func (g *c15Gen) goodRules(namespaced bool) ([]interface{}, []string) {
+	for {
+		rs, feats := g.rules(namespaced, false)
+		ok := len(rs) > 0
+		for _, f := range feats {
+			if f == "rule-both-styles" || (f == "rule-other-namespace" && namespaced) {
+				ok = false
+			}
+		}
+		if ok {
+			return rs, feats
+		}
+	}
+}
+
+// finalizing: the controller has a finalize hook and the parent carries its finalizer; the finalize hook is
+// called because the parent is being deleted, or (unmatch) because it no longer matches the controller's selector
+func (g *c15Gen) finalizing(sc *c15Scenario, unmatch bool) {
+	sc.Ctl.Finalize = true
+	md := sc.Parent["metadata"].(J)
+	md["finalizers"] = A{"metacontroller.io/compositecontroller-" + sc.Ctl.Name}
+	if unmatch {
+		sc.Ctl.CtlSelector = map[string]string{"managed": "yes"}
+		sc.Features = append(sc.Features, "finalize", "finalize-parent-unmatched")
+	} else {
+		md["deletionTimestamp"] = "2020-01-02T00:00:00Z"
+		sc.Features = append(sc.Features, "finalize", "finalize-parent-deleting")
+	}
 }
 
 // a rule over pods only (one related informer: the handler's calls for an un-synced parent are sequential)
@@ -1047,6 +1223,7 @@ func (g *c15Gen) famRebuild(i int, seed uint64) *c15Scenario {
 	sc.Builds = []c15Build{{Steps: c15Syncs(2)}, {BumpGeneration: true, Steps: c15Syncs(2)}}
 	sc.Wake = true
 	sc.ColdFlush = true
+	sc.UpdateProbes = g.updateProbes()
 	sc.Features = append(sc.Features, "rebuild-after-edit")
 	return sc
 }
@@ -1083,6 +1260,7 @@ func c15Corpus() []*c15Scenario {
 		sc.Builds = []c15Build{{Steps: c15Syncs(2)}}
 		sc.Wake = true
 		sc.ColdFlush = true
+		sc.UpdateProbes = []string{"leave", "both", "enter", "neither"}
 		out = append(out, sc)
 		return sc
 	}
@@ -1110,6 +1288,24 @@ func c15Corpus() []*c15Scenario {
 		mk("null-rule-behind-valid-rule", nsd, []interface{}{pods(J{"names": A{"zz"}}), nil})
 		mk("null-rule-behind-matching-rule", nsd, []interface{}{pods(J{"labelSelector": J{}}), nil, pods(J{"names": A{"a"}})})
 		mk("no-rules", nsd, []interface{}{})
+	}
+	// finalize rounds: the finalize request carries the related map too
+	for _, nsd := range []bool{true, false} {
+		for ri, rs := range [][]interface{}{
+			{pods(J{"labelSelector": J{"matchLabels": J{"tier": "x"}}})},
+			{pods(J{"names": A{"a", "b"}})},
+			{pods(nil), J{"apiVersion": "apps.example.com/v1", "resource": "widgets"}},
+		} {
+			for _, unmatch := range []bool{false, true} {
+				if unmatch && ri == 1 {
+					continue
+				}
+				sc := mk("finalize", nsd, rs)
+				sc.Wake, sc.ColdFlush, sc.UpdateProbes = false, false, nil
+				(&c15Gen{r: vh.NewRng(1)}).finalizing(sc, unmatch)
+				sc.Builds = []c15Build{{Steps: c15Syncs(1)}}
+			}
+		}
 	}
 	// a parent that is never synced on the manager: names-only / labels rules, both parent scopes
 	for _, nsd := range []bool{true, false} {
@@ -1175,6 +1371,14 @@ func c15Generate(seed uint64, n int, adv bool) []*c15Scenario {
 	}
 	if n > 0 && len(out) > n {
 		out = out[:n]
+	}
+	return out
+}
+
+func c15UpdSummary(c *c15Rec) []string {
+	var out []string
+	for _, u := range c.Updates {
+		out = append(out, fmt.Sprintf("%s %s woken=%v", u.Kind, objKey(u.Old), u.Woken))
 	}
 	return out
 }
@@ -1265,7 +1469,7 @@ func TestVerif_C15(t *testing.T) {
 		}
 		id := fmt.Sprintf("s%d", i)
 		outcome := c15Outcome(rec)
-		replay := J{"scenario": sc, "features": sc.Features, "outcome": outcome, "wakes": rec.Wakes, "coldCalls": rec.ColdCalls, "cold": c15ColdSummary(rec)}
+		replay := J{"scenario": sc, "features": sc.Features, "outcome": outcome, "wakes": rec.Wakes, "coldCalls": rec.ColdCalls, "cold": c15ColdSummary(rec), "updates": c15UpdSummary(rec)}
 		if err := w.Add(id, c15CoqCase(rec), "C15_check", replay); err != nil {
 			t.Fatal(err)
 		}
@@ -1281,6 +1485,9 @@ func TestVerif_C15(t *testing.T) {
 					nontrivial = true
 				}
 			}
+		}
+		for _, u := range rec.Updates {
+			w.Count(fmt.Sprintf("update-probe-%s-woken=%v", u.Kind, u.Woken))
 		}
 		if len(rec.Cold) > 0 {
 			w.Count("cold-cache-probe")
